@@ -1,7 +1,8 @@
 /-
 Helper lemmas for `Wf/Props/C05V.lean`, part 6: WITHOUT any hypothesis on the context, a panic of the
-whole-verifier model can only come from one of the five named sites (seed, `Air::new`, periodic
-columns, boundary constraints, `draw_integers`); the remaining sites of `AbortSite` are unreachable.
+whole-verifier model can only come from one of the three named sites (`Air::new`, periodic columns,
+boundary constraints); the remaining sites of `AbortSite` — since fix ceafb22 including the seed
+construction and `draw_integers` — are unreachable.
 -/
 import Wf.Lemmas.VerifierTop
 namespace Wf.Verifier
@@ -11,7 +12,7 @@ variable {F : Type}
 
 /-- the sites at which the real code panics on a decodable proof -/
 def AbortSite.named (s : AbortSite) : Prop :=
-  s = .seed ∨ s = .airNew ∨ s = .periodic ∨ s = .boundary ∨ s = .drawIntegers
+  s = .airNew ∨ s = .periodic ∨ s = .boundary
 
 theorem intLoop_le {D} (H : CoinHasher D) (mask n : Nat) : ∀ (k : Nat) (c : Coin D) (vals : List Nat),
     (∀ v ∈ vals, v ≤ mask) → ∀ v ∈ (Coin.intLoop H mask n k c vals).2, v ≤ mask
@@ -95,6 +96,7 @@ theorem performVerification_abort (H : HashParams) (fp : FieldParams) (ef : EF F
     (hd : Decoded p) (hcf : ChannelFacts p ch)
     (hadic : (p.context.info.length * p.context.options.blowup).log2 ≤ fp.twoAdicity)
     (he : d.exemptions ≤ p.context.info.length)
+    (hq : p.context.options.queries < p.context.info.length * p.context.options.blowup)
     (h : performVerification H fp ef d pub p ctx ch coin0 = .error (.abort s)) : s.named := by
   obtain ⟨lg, hlg3, hlg64, hlen⟩ := hd.len
   obtain ⟨q0, q255, hbp, hb2, hb128, hfp, hf2, hf16, _, _⟩ := validB_facts _ hd.opts
@@ -129,8 +131,8 @@ theorem performVerification_abort (H : HashParams) (fp : FieldParams) (ef : EF F
           subst he'
           rcases evaluateConstraints_abort fp ef d pub p.context.info _ _ _ _ z s hroot
             (by simp [List.length_take]; omega) he hev with h | h
-          · exact Or.inr (Or.inr (Or.inl h))
-          · exact Or.inr (Or.inr (Or.inr (Or.inl h)))
+          · exact Or.inr (Or.inl h)
+          · exact Or.inr (Or.inr h)
         · split at he' <;> cases he'
       · rcases friCommit_cases H fp ef p.context.options
             (p.context.info.main + p.context.info.aux + ctx.numConstraintCompositionColumns)
@@ -142,13 +144,12 @@ theorem performVerification_abort (H : HashParams) (fp : FieldParams) (ef : EF F
           exact absurd h (hne s)
         · rw [h2] at h
           simp only [] at h
-          split at h
-          · rename_i e hq
-            injection h with h
-            subst h
-            exact Or.inr (Or.inr (Or.inr (Or.inr (queryPositions_abort H _ _ _ _ s hq))))
-          · rename_i ps hq
-            have hps := queryPositions_ok_lt H _ _ _ _ ps (by rw [hlde]; exact Nat.pow_pos (by omega)) hq
+          rcases queryPositions_cases H p.context.options
+              (p.context.info.length * p.context.options.blowup) ch.nonce c3 ⟨lg + b, hlde⟩ q255 hq with
+            h3 | ⟨ps, h3, hps⟩
+          · rw [h3] at h; cases h
+          · rw [h3] at h
+            simp only [] at h
             split at h
             · rename_i e he'
               injection h with h
@@ -163,6 +164,7 @@ theorem verifyIn_abort (H : HashParams) (fp : FieldParams) (ef : EF F) (d : Desc
     (hd : Decoded p) (hcc : ctx.numConstraintCompositionColumns ≤ 255)
     (hadic : (p.context.info.length * p.context.options.blowup).log2 ≤ fp.twoAdicity)
     (he : d.exemptions ≤ p.context.info.length)
+    (hq : p.context.options.queries < p.context.info.length * p.context.options.blowup)
     (h : verifyIn H fp ef d pub p ctx seed = .error (.abort s)) : s.named := by
   unfold verifyIn at h
   split at h
@@ -172,11 +174,11 @@ theorem verifyIn_abort (H : HashParams) (fp : FieldParams) (ef : EF F) (d : Desc
     exact absurd he' (channelNew_noabort fp ef ctx p s hd hcc)
   · rename_i ch hch
     exact performVerification_abort H fp ef d pub p ctx ch _ s hd (channelNew_facts fp ef ctx p ch hch)
-      hadic he h
+      hadic he hq h
 
 theorem verifyParsed_abort (H : HashParams) (fs : FieldSet) (d : Desc) (pub : PubInputs)
     (acc : Security.Acceptable) (p : ProofM) (s : AbortSite)
-    (hacc : ∀ bits, acc ≠ .minProven bits) (hd : Decoded p)
+    (hacc : ∀ bits, acc ≠ .minProven bits) (hfield : fieldOk fs.fp = true) (hd : Decoded p)
     (h : verifyParsed H fs d pub acc p = .error (.abort s)) : s.named := by
   obtain ⟨lg, hlg3, hlg64, hlen⟩ := hd.len
   obtain ⟨q0, q255, hbp, hb2, hb128, hfp, hf2, hf16, _, _⟩ := validB_facts _ hd.opts
@@ -191,35 +193,42 @@ theorem verifyParsed_abort (H : HashParams) (fs : FieldSet) (d : Desc) (pub : Pu
     subst h
     exact absurd he' (validateOptions_noabort H acc p.context s hacc (by omega))
   · split at h
-    · injection h with h; injection h with h; exact Or.inl h.symm
-    · split at h
+    · cases h
+    · rename_i hmod
+      obtain ⟨els, hels⟩ := contextElements_isSome fs.fp p.context hfield (by simpa using hmod)
+      rw [hels] at h
+      simp only [] at h
+      split at h
       · cases h
       · split at h
         · cases h
-        · rename_i hadic _
+        · rename_i hadic hq
           split at h
-          · injection h with h; injection h with h; exact Or.inr (Or.inl h.symm)
-          · rename_i ctx hctx
-            obtain ⟨hex, hcc⟩ := airNew_facts d p.context.info p.context.options ctx hctx h8 hb128
-            have hadic' : (p.context.info.length * p.context.options.blowup).log2 ≤ fs.fp.twoAdicity := by omega
-            split at h
-            · exact verifyIn_abort H fs.fp fs.e1 d pub p ctx _ s hd hcc hadic' hex h
-            · split at h
+          · cases h
+          · split at h
+            · injection h with h; injection h with h; exact Or.inl h.symm
+            · rename_i ctx hctx
+              obtain ⟨hex, hcc⟩ := airNew_facts d p.context.info p.context.options ctx hctx h8 hb128
+              have hadic' : (p.context.info.length * p.context.options.blowup).log2 ≤ fs.fp.twoAdicity := by omega
+              have hq' : p.context.options.queries < p.context.info.length * p.context.options.blowup := by omega
+              split at h
+              · exact verifyIn_abort H fs.fp fs.e1 d pub p ctx _ s hd hcc hadic' hex hq' h
               · split at h
-                · cases h
-                · exact verifyIn_abort H fs.fp _ d pub p ctx _ s hd hcc hadic' hex h
-              · split at h
-                · cases h
-                · exact verifyIn_abort H fs.fp _ d pub p ctx _ s hd hcc hadic' hex h
+                · split at h
+                  · cases h
+                  · exact verifyIn_abort H fs.fp _ d pub p ctx _ s hd hcc hadic' hex hq' h
+                · split at h
+                  · cases h
+                  · exact verifyIn_abort H fs.fp _ d pub p ctx _ s hd hcc hadic' hex hq' h
 
 theorem verifyModel_abort (H : HashParams) (fs : FieldSet) (d : Desc) (pub : PubInputs)
     (acc : Security.Acceptable) (bytes : Bytes) (s : AbortSite)
-    (hacc : ∀ bits, acc ≠ .minProven bits)
+    (hacc : ∀ bits, acc ≠ .minProven bits) (hfield : fieldOk fs.fp = true)
     (h : verifyModel H fs d pub acc bytes = .error (.abort s)) : s.named := by
   unfold verifyModel at h
   split at h
   · rename_i p r hp
-    exact verifyParsed_abort H fs d pub acc p s hacc (proofDec_decoded bytes p r hp) h
+    exact verifyParsed_abort H fs d pub acc p s hacc hfield (proofDec_decoded bytes p r hp) h
   · cases h
   · rename_i ha
     exact absurd ha (proof_noAbort bytes)
